@@ -246,14 +246,34 @@ impl CheckpointManager {
 
     /// Rollback to a checkpoint by ID or name.
     pub async fn rollback(&self, id_or_name: &str, store: &TensorStore) -> Result<()> {
-        let state = {
+        // The artifacts can live in the very store that is about to be replaced (the router
+        // builds the blob store over the engines' store). The image of a checkpoint was taken
+        // before its own artifact was written, so restoring it drops that checkpoint and every
+        // newer one: load them first and write back whichever the restore removed.
+        let (state, carried) = {
             let blob = self.blob.lock().await;
-            CheckpointStorage::load(id_or_name, &blob).await?
+            let state = CheckpointStorage::load(id_or_name, &blob).await?;
+            let mut carried = Vec::new();
+            for info in CheckpointStorage::list(&blob).await? {
+                if info.created_at >= state.created_at && info.id != state.id {
+                    carried.push(CheckpointStorage::load(&info.id, &blob).await?);
+                }
+            }
+            (state, carried)
         };
 
         store
             .restore_from_bytes(&state.store_snapshot)
             .map_err(|e| CheckpointError::Snapshot(e.to_string()))?;
+
+        let blob = self.blob.lock().await;
+        let kept = CheckpointStorage::list(&blob).await?;
+        for cp in std::iter::once(&state).chain(carried.iter()) {
+            if !kept.iter().any(|k| k.id == cp.id) {
+                CheckpointStorage::store(cp, &blob).await?;
+            }
+        }
+        drop(blob);
 
         Ok(())
     }
